@@ -207,6 +207,7 @@ func (p *Prog) encodeFunctionIn(fn *ssa.Function, ct *Contract, workdir string) 
 		e.workdir = workdir
 	}
 	e.siteHits = map[int]int{}
+	e.returnHits = map[int]int{}
 	e.ghostSorts = map[string]Sort{}
 	e.ghostTypes = map[string]types.Type{}
 	e.inlined = map[string]bool{}
@@ -321,6 +322,11 @@ func (p *Prog) encodeFunctionIn(fn *ssa.Function, ct *Contract, workdir string) 
 	for si, s := range ct.Sites {
 		if e.siteHits[si] == 0 {
 			e.specError(fmt.Sprintf("%s: site clause %q matched no call (pattern %s) — contract is stale or the call was removed", ct.Key, s.Cl.Text, s.Pattern))
+		}
+	}
+	for ri, r := range ct.Returns {
+		if e.returnHits[ri] == 0 {
+			e.specError(fmt.Sprintf("%s: return clause %q could not be checked at any return statement (a variable it names is never in scope there)", ct.Key, r.Cl.Text))
 		}
 	}
 	cov2 := &Obligation{Name: top + "#cover:returns", Kind: "cover", Goal: rg, CmdIdx: len(e.cmds), Cover: true, Props: ct.Props}
